@@ -89,7 +89,9 @@ type c03Case struct {
 	// DB is the state of the profile database with regard to prof1 / dev1:
 	// normal, deleted, deleted-nodevs, detached, moved, noprofile, readdressed,
 	// reassigned, auto-moved, auth-changed (dev1 was synchronised first with
-	// authentication off, then with the policy of the case).
+	// authentication off, then with the policy of the case), keys-removed
+	// (dev1 keeps its profile but loses its linked IP and its dedicated IPs,
+	// auto1 keeps its profile but loses its human id).
 	DB string `json:"db"`
 
 	// Auto tells whether prof1 has automatic devices enabled.
@@ -181,6 +183,10 @@ func c03NewWorld(c c03Case, created []c03Created) (w *c03World) {
 		w.owner[c03Auto1] = c03Prof2
 	case "auth-changed":
 		// The latest synchronised policy is the one of the case.
+	case "keys-removed":
+		delete(w.linked, c03Dev1)
+		delete(w.dedicated, c03Dev1)
+		delete(w.human, c03Auto1)
 	case "readdressed", "reassigned":
 		// dev1 got a new linked IP and lost its dedicated address; in state
 		// reassigned its old linked IP now belongs to dev3.
@@ -328,6 +334,15 @@ func c03NearMiss(c c03Case, w *c03World, prof, dev string) (what string) {
 	rip, _, _ := strings.Cut(c.Raddr, ":")
 	if w.linked[dev] == rip || w.dedicated[dev] == lip {
 		return "address-channel-not-valid-here"
+	}
+	if dev == c03Dev1 && c.Proto == "dns" {
+		// The addresses dev1 had after the first synchronisation.
+		if c.Linked && rip == c03LinkedDev1 {
+			return "formerly-linked-address"
+		}
+		if c.Ifaces && lip == c03DedicatedDev1 {
+			return "formerly-dedicated-address"
+		}
 	}
 
 	return "other"
@@ -844,6 +859,12 @@ func c03NewDB(c c03Case) (db *profiledb.Default, st *c03Storage) {
 			dev3b.LinkedIP = netip.MustParseAddr(c03LinkedDev1)
 			part.Devices = append(part.Devices, &dev3b)
 		}
+	case "keys-removed":
+		dev1b, auto1b := *dev1, *auto1
+		dev1b.LinkedIP, dev1b.DedicatedIPs = netip.Addr{}, nil
+		auto1b.HumanIDLower = ""
+		part.Profiles = []*agd.Profile{c03Profile(c03Prof1, []agd.DeviceID{c03Dev1, c03Auto1}, false, c.Auto)}
+		part.Devices = []*agd.Device{&dev1b, &auto1b}
 	case "auth-changed":
 		dev1b := *dev1
 		dev1b.Auth = c03Auth(c.Auth, c03PW1)
@@ -1282,7 +1303,7 @@ var (
 	c03Laddrs  = []string{c03SrvAddr + ":53", c03DedicatedDev1 + ":53", c03DedicatedNone + ":53"}
 	c03Domains = [][]string{nil, {"d.test"}, {"x.test", "d.test"}}
 	c03Auths   = []string{"off", "on", "doh-only"}
-	c03DBs     = []string{"normal", "deleted", "detached", "readdressed", "auto-moved", "moved", "deleted-nodevs", "noprofile", "reassigned", "auth-changed"}
+	c03DBs     = []string{"normal", "deleted", "detached", "readdressed", "auto-moved", "keys-removed", "moved", "deleted-nodevs", "noprofile", "reassigned", "auth-changed"}
 	c03Bools   = []bool{false, true}
 )
 
@@ -1417,7 +1438,7 @@ func c03GenPlain(d c03Dims, emit func(c03Case)) {
 // case: the data was synchronised.
 func c03GenCacheFail(emit func(c03Case)) {
 	for _, after := range []int{0, 1, 2} {
-		for _, db := range []string{"deleted", "detached", "moved", "readdressed", "reassigned", "auto-moved", "auth-changed"} {
+		for _, db := range []string{"deleted", "detached", "moved", "readdressed", "reassigned", "auto-moved", "auth-changed", "keys-removed"} {
 			for _, auth := range c03Auths {
 				for _, proto := range []string{"doh", "dot", "doq", "dns", "dnscrypt"} {
 					cfg := c03Case{
@@ -1443,7 +1464,7 @@ func TestVerifC03(t *testing.T) {
 	r := vrt.Start("C03")
 	c03Messages = agdtest.NewConstructor(t)
 
-	q := c03Dims{paths: 10, uis: 8, snis: 6, opts: 7, raddrs: 2, laddrs: 3, domains: 2, dbs: 5, autos: 1}
+	q := c03Dims{paths: 10, uis: 8, snis: 6, opts: 7, raddrs: 2, laddrs: 3, domains: 2, dbs: 6, autos: 1}
 	th := c03Dims{
 		paths: len(c03Paths), uis: len(c03UIs), snis: len(c03SNIs), opts: len(c03Opts),
 		raddrs: len(c03Raddrs), laddrs: len(c03Laddrs), domains: len(c03Domains), dbs: len(c03DBs), autos: 2,
